@@ -339,13 +339,9 @@ func c03gen(g *gen, tier string, w *bufio.Writer) {
 			// (W2 - 0.0.0.0/n and ::/n with n > 0 taken for default routes - was a defect of
 			// Rearranger.AddLocation and is repaired: such blocks are generated like any other)
 			_ = ip16
-			if bits == 128 && ones < 96 && ones > 0 {
-				// W3: no IPv6 block other than ::/0 may contain ::ffff:0:0/96
-				probe := net.ParseIP("::ffff:0:0")
-				if ipn.Contains(probe) {
-					return
-				}
-			}
+			// (W3 - an IPv6 block other than ::/0 containing ::ffff:0:0/96 unbalanced the rearranger's
+			// location stack - was a defect and is repaired: such blocks are generated like any other)
+			_, _ = bits, ones
 			seen[key] = true
 			nets = append(nets, c03net{c, g.pick(locs)})
 		}
@@ -376,7 +372,14 @@ func c03gen(g *gen, tier string, w *bufio.Writer) {
 				add(fmt.Sprintf("2001:db8:%x::/%d", g.intn(65536), []int{32, 40, 48, 56, 64}[g.intn(5)]))
 			case 6: // touching ::ffff:0:0/96 from both sides
 				add(g.pick([]string{"::fffe:0:0/96", "::1:0:0:0/80", "0.0.0.0/1", "128.0.0.0/1", "::fffe:ffff:ffff/128", "0.0.0.0/8", "0.0.0.0/31",
-					"::/96", "::/120", "::/128", "0.0.0.0/1"}))
+					"::/96", "::/120", "::/128", "0.0.0.0/1", "::/1", "8000::/1", "::/8", "::/64", "::/80", "::8000:0:0/81", "::c000:0:0/82",
+					"::fffe:0:0/95", "::/79", "255.0.0.0/8", "128.0.0.0/1", "255.255.255.255/32", "255.255.0.0/16"}))
+				if g.bool() {
+					// an IPv6 block ending exactly where the IPv4 range ends, next to an IPv4 block that
+					// ends there too (and no IPv4 default route)
+					add(g.pick([]string{"::/80", "::8000:0:0/81", "::c000:0:0/82", "::fffe:0:0/95"}))
+					add(g.pick([]string{"255.0.0.0/8", "128.0.0.0/1", "255.255.255.255/32"}))
+				}
 			default:
 				add(fmt.Sprintf("%s/%d", g.ip4(), 1+g.intn(32)))
 			}
